@@ -11,6 +11,10 @@ Inductive case :=
   (* a real datagram with the features of r was handed to the real readOutsidePackets: it did m *)
 | CShort (m : N)
   (* a datagram shorter than a header did m *)
+| CBatch (pkts : list (N * row)) (marks : list (N * bool))
+  (* one receive batch handed to the real Interface.listenOut (listener per datagram, flusher once). pkts: per datagram
+     the tunnel its index names (0: none) and its features; marks: per tunnel of the receiver, whether the connection
+     manager's inbound-traffic mark is set after the batch *)
 | CNet (outer : row) (inner : option row) (roaming : bool) (m : N).
   (* a datagram derived from real traffic. outer: its features; inner: the features of the payload when the datagram
      is a relay packet on a terminal record; roaming: its source differs from the tunnel's current remote *)
@@ -46,12 +50,21 @@ Definition net_model_ok (outer : row) (inner : option row) (roaming : bool) (m :
       else m =? t
   end.
 
+(* a tunnel is marked alive by a batch iff the batch held a packet that authenticated under that tunnel's key *)
+Definition batch_spec (pkts : list (N * row)) (marks : list (N * bool)) : bool :=
+  forallb (fun tm => Bool.eqb (snd tm) (existsb (fun p => (fst p =? fst tm) && authfresh (snd p)) pkts)) marks.
+(* the table: iff some packet of the batch naming the tunnel has the liveness effect *)
+Definition batch_model (pkts : list (N * row)) (marks : list (N * bool)) : bool :=
+  forallb (fun tm => Bool.eqb (snd tm)
+     (existsb (fun p => (fst p =? fst tm) && match read_fast (snd p) with Some m => has e_live m | None => false end) pkts)) marks.
+
 Definition check_case (c : case) : list N :=
   match c with
   | COne r m =>
       (* code 2: the documented rule (effect => authentic and fresh; only an authenticated close closes), NOT the table *)
       flag 2 (spec_ok r m) ++ flag 1 (opt_eqb (read_fast r) (Some m))
   | CShort m => flag 2 (m =? 0) ++ flag 1 (m =? tab_short)
+  | CBatch pkts marks => flag 2 (batch_spec pkts marks) ++ flag 1 (batch_model pkts marks)
   | CNet outer inner roaming m =>
       flag 2 (net_spec outer inner m) ++ flag 1 (net_model_ok outer inner roaming m)
   end.
